@@ -250,7 +250,7 @@ def shards(tier):
     out = []
     thorough = tier == "thorough"
     stacks = ("pooled", "hash", "hashp", "retrying")
-    cfgs = list(CONFIGS) if thorough else ["default", "prefix", "dnr_false", "utf8", "pickle", "timeouts"]
+    cfgs = list(CONFIGS) if thorough else ["default", "prefix", "strprefix", "dnr_false", "utf8", "pickle", "timeouts"]
     for st in stacks:
         for cfg in cfgs:
             if not thorough and st in ("hashp", "retrying") and cfg not in ("default", "utf8", "timeouts"):
@@ -266,12 +266,12 @@ BOUNDS = {
     "quick": "20 operation groups (every key-addressed method, the *_multi aliases, dict-style access, illegal arguments) x up "
              "to 4 call shapes (positional / keyword) x noreply {default, True, False} x 4 server states (hit, miss, numeric, "
              "stored-through-the-stack) x 4 argument presets over expire {0,30,-1}, flags {None,0,77}, default "
-             "{None,0,'dflt'}, delta {1,0,2^64-1}, all chosen by symbolic indices; configurations {default, key_prefix, default_noreply=False, "
+             "{None,0,'dflt'}, delta {1,0,2^64-1}, all chosen by symbolic indices; configurations {default, key_prefix (bytes and str), default_noreply=False, "
              "utf8+unicode keys, pickle serde, timeouts+no_delay} on PooledClient and HashClient(1 server), a subset on "
              "pooled HashClient and RetryingClient(Client); two-call sequences: one of 5 first calls (serializer raising, "
              "deserializer raising, CLIENT_ERROR, illegal key, success) then any operation x noreply x 3 states on "
              "PooledClient / HashClient / pooled HashClient with a raising caller-supplied serde and the default one",
-    "thorough": "all 10 configurations (adds str prefix, compressed serde, legacy serializer functions) on all 4 stacks",
+    "thorough": "all 10 configurations (adds compressed serde, legacy serializer functions, the raising serde for single calls) on all 4 stacks",
 }
 OUTSIDE = "multi-server HashClient (C12), failing servers (C13/C07), RetryingClient with failing calls (C17)"
 ASSUMPTIONS = ["each stack runs against its own RefServer prepared in the same state; command streams are compared after "
